@@ -18,7 +18,7 @@ import time
 
 import z3
 
-from symx import core
+from symx import core, axioms
 from symx.core import Engine, SymReal, SymInt, SymBool
 
 # ---------------------------------------------------------------------------
@@ -219,6 +219,7 @@ class Scenario:
         self.axioms = axioms
         self.samples = samples
         self.canary = canary
+        self.product_rule = False
         self.sym_consts = dict(sym_consts or {})
 
     def compile(self):
@@ -300,7 +301,7 @@ def run_scenarios(scens, patches_cm, timeout_ms=10000, max_paths=4000, wall_s=12
                         else:
                             out['inconclusive'].append(f"{scen.key}: exception path with pc {r}")
                         continue
-                    ax = scen.axioms(v) if scen.axioms else []
+                    ax0 = scen.axioms(v) if scen.axioms else []
                     for label, claim in res:
                         out['obligations'] += 1
                         if claim is True:
@@ -317,6 +318,7 @@ def run_scenarios(scens, patches_cm, timeout_ms=10000, max_paths=4000, wall_s=12
                             continue
                         if isinstance(claim, SymBool):
                             claim = Claim(claim.t)
+                        ax = list(ax0) + axioms.instances(list(pc) + [claim.t] + list(ax0), product_rule=scen.product_rule)
                         r, m = eng.prove(pc, claim.t, extra=ax)
                         if r == 'unsat':
                             out['discharged'] += 1
